@@ -1,7 +1,6 @@
 (* Consequences of soundness + completeness:
-   - comparing both ways characterises structural equivalence exactly;
-   - the hypothesis no_extra_props follows from the acceptance of the reverse comparison;
-   - every single difference of a noticed class (Cmp/Diff.v) breaks the covered relation, so the
+   - one comparison characterises structural equivalence exactly (so does comparing both ways);
+   - every single difference of any class (Cmp/Diff.v) breaks the equivalence, so the
      class-by-class rejection theorems are corollaries of soundness;
    - completeness for "pins as a set" holds (the comparer matches the pins of two wires by key);
      the witness of the former refutation (pins of one wire listed in the other order) is accepted;
@@ -56,7 +55,7 @@ Proof.
 Qed.
 
 Lemma props_eq_sym p q : props_eq p q -> props_eq q p.
-Proof. intros [H1 H2]. split; assumption. Qed.
+Proof. intros [H0 [H1 H2]]. split; [symmetry; assumption|split; assumption]. Qed.
 
 Theorem nv_rel_sym (WR : wire -> wire -> Prop) a b : (forall w w', WR w w' -> WR w' w) ->
   nv_rel props_eq WR a b -> nv_rel props_eq WR b a.
@@ -99,37 +98,26 @@ Proof.
   split; assumption.
 Qed.
 
-Theorem covered_no_extra_gen WR a b : wf_named a -> nv_rel props_sub WR b a -> no_extra_props a b.
-Proof.
-  intros Hwf [_ [_ [H3 H4]]]. destruct (wf_named_libs a Hwf) as [Hnl Hwl]. split.
-  - intros ta tb Ea Eb. rewrite Ea, Eb in H3. cbn in H3. apply H3.
-  - intros la lb da db ia ib Hla Hlb Hl Hda Hdb Hd Hia Hib Hi.
-    assert (L : lib_rel props_sub WR lb la).
-    { eapply (sib_equiv_pair _ l_name); [exact H4|exact Hnl|intros u v [G _]; exact G| | |]; auto. }
-    destruct L as [_ [_ L3]]. destruct (wf_lib_defs la (Hwl la Hla)) as [Hnd Hwd].
-    assert (D : defn_rel props_sub WR db da).
-    { eapply (sib_equiv_pair _ d_name); [exact L3|exact Hnd|intros u v [G _]; exact G| | |]; auto. }
-    destruct D as [_ [_ [_ [_ D5]]]]. pose proof (wf_def_unpack da (Hwd da Hda)) as Hf.
-    assert (I : inst_rel props_sub ib ia).
-    { eapply (sib_equiv_pair _ i_name); [exact D5|exact (wd_ni da Hf)|intros u v [G _]; exact G| | |]; auto. }
-    apply I.
-Qed.
-
-Theorem covered_no_extra a b : wf_named a -> nv_covered_set b a -> no_extra_props a b.
-Proof. apply covered_no_extra_gen. Qed.
-
-(* comparing both ways decides structural equivalence exactly *)
+(* comparing both ways decides structural equivalence exactly (a corollary of compare_iff_equiv:
+   one comparison is enough since the repair of compare_instances) *)
 Theorem compare_both_ways a b : wf_named a -> wf_named b -> no_asg a -> no_asg b ->
   (compare a b = true /\ compare b a = true <-> nv_equiv a b).
 Proof.
   intros Ha Hb Na Nb. split.
-  - intros [H1 H2]. apply compare_sound; try assumption.
-    apply covered_no_extra; [assumption|]. apply compare_sound_covered; assumption.
+  - intros [H1 _]. apply compare_sound; assumption.
   - intro H. split; [apply compare_complete_set; assumption|].
     apply compare_complete_set; [assumption|assumption|assumption|]. apply nv_equiv_sym. assumption.
 Qed.
 
-(* ---------- every noticed single difference breaks the covered relation ---------- *)
+(* what is accepted one way round is accepted the other way round *)
+Theorem compare_symmetric a b : wf_named a -> wf_named b -> no_asg a -> no_asg b ->
+  compare a b = true -> compare b a = true.
+Proof.
+  intros Ha Hb Na Nb H. apply compare_complete_set; try assumption.
+  apply nv_equiv_sym. apply compare_sound; assumption.
+Qed.
+
+(* ---------- every single difference breaks the equivalence ---------- *)
 Lemma sib_splice {A} (R : A -> A -> Prop) (name : A -> oname) l1 x y l2 :
   named_ok name (l1 ++ x :: l2) = true -> name y = name x ->
   (forall u v, R u v -> name u = name v) ->
@@ -182,12 +170,11 @@ Proof.
     apply (perm_splice_same pinref_eq_dec) in H3. exact (pin_diff_neq m p p' Hd H3).
 Qed.
 
-Lemma inst_diff_not_rel m i i' : props_ok i -> noticed m = true -> inst_diff m i i' ->
-  ~ inst_rel props_sub i i'.
+Lemma inst_diff_not_rel m i i' : props_ok i -> inst_diff m i i' -> ~ inst_rel props_eq i i'.
 Proof.
-  intros Hk Hm Hd [_ [_ [H3 [_ H4]]]].
-  destruct Hd as [i r r' Hr Hne|i ps ps' Hp Hs|i ps' Hp|i ps d Hp|i ps l1 d kv l2 Hp Hps];
-    try discriminate; cbn in *.
+  intros Hk Hd [_ [_ [H3 [H0 [[_ H4] [_ H5]]]]]].
+  destruct Hd as [i r r' Hr Hne|i ps ps' Hp Hs|i ps' Hp|i ps d Hp|i ps l1 d kv l2 Hp Hps Hnew];
+    cbn in *.
   - congruence.
   - rewrite Hp in H4. unfold props_ok in Hk. rewrite Hp in Hk.
     destruct Hs as [L1 d d' L2 Hd]. destruct Hd as [l1 k v v' l2 He].
@@ -199,6 +186,19 @@ Proof.
       cbn. rewrite str_eqb_refl. reflexivity. }
     cbn in Hv. rewrite nth_error_app_here in Hv. rewrite sassoc_app_notin in Hv by assumption.
     cbn in Hv. rewrite str_eqb_refl in Hv. inversion Hv; subst. congruence.
+  - (* EDIF.properties only on the copy *)
+    rewrite Hp in H0. discriminate H0.
+  - (* one more entry *)
+    rewrite Hp in H0. cbn in H0. inversion H0 as [Hl]. rewrite app_length in Hl. cbn in Hl. lia.
+  - (* one more key in an entry *)
+    rewrite Hp in H5. subst ps. destruct kv as [k v]. cbn in Hnew.
+    assert (Hs : exists v0, sassoc k (d ++ [(k, v)]) = Some v0).
+    { apply has_key_sassoc. apply (in_has_key (k, v)). apply in_or_app. right. left. reflexivity. }
+    destruct Hs as [v0 Hv0].
+    destruct (H5 (length l1) k v0) as [v1 [Hv1 _]].
+    { cbn. rewrite nth_error_app_here. assumption. }
+    cbn in Hv1. rewrite nth_error_app_here in Hv1.
+    unfold has_key in Hnew. rewrite Hv1 in Hnew. discriminate Hnew.
 Qed.
 
 Lemma splice_not_sib {A} (R D : A -> A -> Prop) (name : A -> oname) l l' :
@@ -212,10 +212,10 @@ Proof.
   eapply (sib_splice R name); [exact Hn|apply HD; assumption|exact HR|exact H].
 Qed.
 
-Lemma def_diff_not_rel m d d' : wf_def d = true -> noticed m = true -> def_diff m d d' ->
-  ~ defn_rel props_sub wire_perm d d'.
+Lemma def_diff_not_rel m d d' : wf_def d = true -> def_diff m d d' ->
+  ~ defn_rel props_eq wire_perm d d'.
 Proof.
-  intros Hwf Hm Hd [_ [_ [H3 [H4 H5]]]]. apply wf_def_unpack in Hwf.
+  intros Hwf Hd [_ [_ [H3 [H4 H5]]]]. apply wf_def_unpack in Hwf.
   destruct Hd as [m d ps' Hs|d ps' Hs|d ps' Hs|m d cs' Hs|d cs' Hs|d cs' Hs|m d xs' Hs|d xs' Hs _|d xs' Hs _];
     cbn in *.
   - revert H3. apply (splice_not_sib port_rel (port_diff m) p_name); [apply (wd_np _ Hwf)| | | |exact Hs].
@@ -230,36 +230,36 @@ Proof.
     + intros x y _. apply cable_diff_not_rel.
   - apply (sib_dropped _ _ _ Hs H4).
   - apply (sib_added _ _ _ Hs H4).
-  - revert H5. apply (splice_not_sib (inst_rel props_sub) (inst_diff m) i_name); [apply (wd_ni _ Hwf)| | | |exact Hs].
+  - revert H5. apply (splice_not_sib (inst_rel props_eq) (inst_diff m) i_name); [apply (wd_ni _ Hwf)| | | |exact Hs].
     + intros x y. apply inst_diff_name.
     + intros u v [G _]. exact G.
-    + intros x y Hx. apply inst_diff_not_rel; [|assumption].
+    + intros x y Hx. apply inst_diff_not_rel.
       apply wf_inst_props_ok. apply (wd_wi _ Hwf). assumption.
   - apply (sib_dropped _ _ _ Hs H5).
   - apply (sib_added _ _ _ Hs H5).
 Qed.
 
-Lemma lib_diff_not_rel m l l' : wf_lib l = true -> noticed m = true -> lib_diff m l l' ->
-  ~ lib_rel props_sub wire_perm l l'.
+Lemma lib_diff_not_rel m l l' : wf_lib l = true -> lib_diff m l l' ->
+  ~ lib_rel props_eq wire_perm l l'.
 Proof.
-  intros Hwf Hm Hd [_ [_ H3]]. destruct (wf_lib_defs l Hwf) as [Hn Hw].
+  intros Hwf Hd [_ [_ H3]]. destruct (wf_lib_defs l Hwf) as [Hn Hw].
   destruct Hd as [m l ds' Hs|l ds' Hs|l ds' Hs]; cbn in *.
-  - revert H3. apply (splice_not_sib (defn_rel props_sub wire_perm) (def_diff m) d_name); [exact Hn| | | |exact Hs].
+  - revert H3. apply (splice_not_sib (defn_rel props_eq wire_perm) (def_diff m) d_name); [exact Hn| | | |exact Hs].
     + intros x y Hxy. apply (def_diff_name m x y Hxy).
     + intros u v [G _]. exact G.
-    + intros x y Hx. apply def_diff_not_rel; [apply Hw; assumption|assumption].
+    + intros x y Hx. apply def_diff_not_rel. apply Hw; assumption.
   - apply (sib_dropped _ _ _ Hs H3).
   - apply (sib_added _ _ _ Hs H3).
 Qed.
 
-Theorem nv_diff_not_covered m a b : wf_named a -> noticed m = true -> nv_diff m a b -> ~ nv_covered_set a b.
+Theorem nv_diff_not_equiv m a b : wf_named a -> nv_diff m a b -> ~ nv_equiv a b.
 Proof.
-  intros Hwf Hm Hd [_ [_ [H3 H4]]]. destruct (wf_named_libs a Hwf) as [Hn Hw].
+  intros Hwf Hd [_ [_ [H3 H4]]]. destruct (wf_named_libs a Hwf) as [Hn Hw].
   destruct Hd as [m a ls' Hs|a ls' Hs|a ls' Hs|m a t t' Ht Hi]; cbn in *.
-  - revert H4. apply (splice_not_sib (lib_rel props_sub wire_perm) (lib_diff m) l_name); [exact Hn| | | |exact Hs].
+  - revert H4. apply (splice_not_sib (lib_rel props_eq wire_perm) (lib_diff m) l_name); [exact Hn| | | |exact Hs].
     + intros x y Hxy. apply (lib_diff_name m x y Hxy).
     + intros u v [G _]. exact G.
-    + intros x y Hx. apply lib_diff_not_rel; [apply Hw; assumption|assumption].
+    + intros x y Hx. apply lib_diff_not_rel. apply Hw; assumption.
   - apply (sib_dropped _ _ _ Hs H4).
   - apply (sib_added _ _ _ Hs H4).
   - rewrite Ht in H3. cbn in H3. apply (inst_diff_not_rel m t t'); try assumption.
@@ -269,29 +269,28 @@ Proof.
 Qed.
 
 (* the class-by-class rejection theorems, as corollaries of soundness (acceptance form) *)
-Theorem rejects_by_soundness m a b : wf_named a -> no_asg a -> noticed m = true -> nv_diff m a b ->
-  compare a b = false.
+Theorem rejects_by_soundness m a b : wf_named a -> no_asg a -> nv_diff m a b -> compare a b = false.
 Proof.
-  intros Hwf Hna Hm Hd. destruct (compare a b) eqn:E; [|reflexivity].
-  exfalso. apply (nv_diff_not_covered m a b Hwf Hm Hd). apply compare_sound_covered; assumption.
+  intros Hwf Hna Hd. destruct (compare a b) eqn:E; [|reflexivity].
+  exfalso. apply (nv_diff_not_equiv m a b Hwf Hd). apply compare_sound; assumption.
 Qed.
 
 Theorem single_diff_rejected_by_soundness a b : wf_named a -> no_asg a -> single_diff a b ->
   compare a b = false.
-Proof. intros Hwf Hna [m [Hm Hd]]. eapply rejects_by_soundness; eassumption. Qed.
+Proof. intros Hwf Hna [m Hd]. eapply rejects_by_soundness; eassumption. Qed.
 
 (* contrapositive of soundness: any difference at all, two or more at once included *)
-Theorem not_covered_rejected a b : wf_named a -> no_asg a -> ~ nv_covered_set a b -> compare a b = false.
+Theorem not_equiv_rejected a b : wf_named a -> no_asg a -> ~ nv_equiv a b -> compare a b = false.
 Proof.
   intros Hwf Hna H. destruct (compare a b) eqn:E; [|reflexivity].
-  exfalso. apply H. apply compare_sound_covered; assumption.
+  exfalso. apply H. apply compare_sound; assumption.
 Qed.
 
-Theorem not_equiv_rejected a b : wf_named a -> no_asg a -> no_extra_props a b ->
-  ~ nv_equiv a b -> compare a b = false.
+(* the weaker form that held before the repair of compare_instances: a corollary *)
+Theorem not_covered_rejected a b : wf_named a -> no_asg a -> ~ nv_covered_set a b -> compare a b = false.
 Proof.
-  intros Hwf Hna Hex H. destruct (compare a b) eqn:E; [|reflexivity].
-  exfalso. apply H. apply compare_sound; assumption.
+  intros Hwf Hna H. apply not_equiv_rejected; try assumption.
+  intro E. apply H. apply equiv_covered_set. assumption.
 Qed.
 
 (* ---------- nothing that the positional comparison accepted is lost ---------- *)
@@ -361,40 +360,29 @@ Proof.
   split; [exact w_perm_ab|exact w_perm_ba].
 Qed.
 
-Lemma sound_ex : exists a b, a <> b /\ wf_named a /\ no_asg a /\ no_extra_props a b /\ compare a b = true.
+Lemma sound_ex : exists a b, a <> b /\ wf_named a /\ no_asg a /\ compare a b = true.
 Proof.
   exists w_base, w_perm. split; [intro H; symmetry in H; exact (w_perm_ne H)|].
-  split; [exact w_base_wf|]. split; [exact w_base_noasg|]. split; [|exact w_perm_ab].
-  apply covered_no_extra; [exact w_base_wf|].
-  apply compare_sound_covered; [apply w_perm_wf|apply w_perm_wf|exact w_perm_ba].
+  split; [exact w_base_wf|]. split; [exact w_base_noasg|exact w_perm_ab].
 Qed.
 
 (* two differences at once *)
 Lemma w_double_rejected : cmp_run w_base w_double = Reject. Proof. vmr. Qed.
 
-Lemma double_ex : exists a b, wf_named a /\ wf_named b /\ no_asg a /\ ~ nv_covered_set a b.
+Lemma double_ex : exists a b, wf_named a /\ wf_named b /\ no_asg a /\ ~ nv_equiv a b.
 Proof.
   exists w_base, w_double. split; [exact w_base_wf|]. split; [vmr|]. split; [exact w_base_noasg|].
-  intro H. apply compare_complete_covered_set in H; [|exact w_base_wf|vmr|exact w_base_noasg].
+  intro H. apply compare_complete_set in H; [|exact w_base_wf|vmr|exact w_base_noasg].
   vm_compute in H. discriminate H.
-Qed.
-
-(* the hole: properties that only the second netlist has *)
-Lemma extra_props_hole :
-  exists a b, wf_named a /\ wf_named b /\ no_asg a /\ no_asg b /\ compare a b = true /\ ~ nv_equiv a b.
-Proof.
-  exists w_base, w_prop_new. repeat (split; [vmr|]).
-  intro H. apply (compare_both_ways w_base w_prop_new) in H; try vmr.
-  destruct H as [_ H]. vm_compute in H. discriminate H.
 Qed.
 
 (* the hole: assignment instances (no_asg is needed, even when comparing both ways) *)
 Lemma assignment_hole :
-  exists a b, wf_named a /\ wf_named b /\ compare a b = true /\ compare b a = true /\ ~ nv_covered_set a b.
+  exists a b, wf_named a /\ wf_named b /\ compare a b = true /\ compare b a = true /\ ~ nv_equiv a b.
 Proof.
   exists w_asg, w_asg_ref. split; [exact w_asg_wf|]. split; [vmr|]. split; [exact w_asg_ref_accepted|].
   split; [vmr|].
-  apply (nv_diff_not_covered MInstRef); [exact w_asg_wf|reflexivity|exact w_asg_ref_diff].
+  apply (nv_diff_not_equiv MInstRef); [exact w_asg_wf|exact w_asg_ref_diff].
 Qed.
 
 (* ---------- pins as a set: the same connectivity listed in another order is accepted ---------- *)
@@ -402,7 +390,10 @@ Lemma props_sub_refl p : props_sub p p.
 Proof. split; [auto|]. intros x k v H. exists v. split; [assumption|apply pval_eqb_refl]. Qed.
 
 Lemma props_eq_refl p : props_eq p p.
-Proof. split; apply props_sub_refl. Qed.
+Proof. split; [reflexivity|split; apply props_sub_refl]. Qed.
+
+Lemma props_sub_none p : props_sub None p.
+Proof. split; [intro H; exfalso; apply H; reflexivity|intros x k v H; discriminate H]. Qed.
 
 Ltac rel_id :=
   repeat first
@@ -507,36 +498,42 @@ Proof.
   split; [vmr|]. split; [vmr|exact w_lower_equiv].
 Qed.
 
-(* hypotheses of not_equiv_rejected are satisfiable: two differences, no property touched *)
-Ltac in_cases H :=
-  repeat match type of H with
-         | _ \/ _ => destruct H as [H|H]; [subst|]
-         | False => contradiction
-         end.
-
-Lemma double_no_extra : no_extra_props w_base w_double.
+(* hypotheses of not_equiv_rejected are satisfiable: two differences at once *)
+Lemma structural_difference_ex : exists a b, wf_named a /\ no_asg a /\ ~ nv_equiv a b.
 Proof.
-  split.
-  - intros ta tb Ea Eb. unfold w_base in Ea. unfold w_double in Eb. cbn [n_top] in Ea, Eb.
-    inversion Ea; inversion Eb; subst. apply props_sub_refl.
-  - intros la lb da db ia ib Hla Hlb Hl Hda Hdb Hd Hia Hib Hi.
-    unfold w_base in Hla. unfold w_double in Hlb. cbn [n_libs In] in Hla, Hlb.
-    in_cases Hla; in_cases Hlb; cbn [l_defs In] in Hda, Hdb; in_cases Hda; in_cases Hdb;
-      cbn [d_insts In] in Hia, Hib; in_cases Hia; in_cases Hib;
-      try apply props_sub_refl; exfalso; vm_compute in Hi; discriminate Hi.
+  destruct double_ex as [a [b [H1 [_ [H2 H3]]]]]. exists a, b. auto.
 Qed.
 
-Lemma structural_difference_ex :
-  exists a b, wf_named a /\ no_asg a /\ no_extra_props a b /\ ~ nv_equiv a b.
-Proof.
-  exists w_base, w_double. split; [exact w_base_wf|]. split; [exact w_base_noasg|].
-  split; [exact double_no_extra|].
-  intro H. apply compare_complete_set in H; [|exact w_base_wf|vm_compute; reflexivity|exact w_base_noasg].
-  vm_compute in H. discriminate H.
-Qed.
-
-Lemma reverse_ex : exists a b, a <> b /\ wf_named a /\ wf_named b /\ no_asg b /\ compare b a = true.
+Lemma reverse_ex : exists a b, a <> b /\ wf_named a /\ wf_named b /\ no_asg a /\ no_asg b /\ compare a b = true.
 Proof.
   exists w_base, w_perm. split; [intro H; symmetry in H; exact (w_perm_ne H)|].
-  split; [exact w_base_wf|]. split; [apply w_perm_wf|]. split; [apply w_perm_wf|exact w_perm_ba].
+  split; [exact w_base_wf|]. split; [apply w_perm_wf|]. split; [exact w_base_noasg|].
+  split; [apply w_perm_wf|exact w_perm_ab].
+Qed.
+
+(* ---------- properties that only the second netlist has (the former hole) ---------- *)
+Ltac rel_sub :=
+  repeat first
+    [ exact I
+    | reflexivity
+    | apply props_sub_refl
+    | apply props_sub_none
+    | match goal with
+      | |- _ /\ _ => split
+      | |- sib_equiv _ _ ?l' => exists l'; split; [apply Permutation_refl|]
+      | |- Forall2 _ _ _ => constructor
+      | |- wire_perm _ _ => apply Permutation_refl
+      end ].
+
+Lemma w_prop_new_covered : nv_covered_set w_base w_prop_new.
+Proof. unfold w_base, w_prop_new. cbv [nv_covered_set]. unfold_rel. rel_sub. Qed.
+
+(* covered, not equivalent: accepted before the repair of compare_instances, rejected now *)
+Lemma extra_props_rejected :
+  exists a b, wf_named a /\ wf_named b /\ no_asg a /\ no_asg b /\ nv_covered_set a b /\ ~ nv_equiv a b /\
+              cmp_run a b = Reject /\ cmp_run b a = Reject.
+Proof.
+  exists w_base, w_prop_new. repeat (split; [vmr|]). split; [exact w_prop_new_covered|].
+  split; [|split; vmr].
+  apply (nv_diff_not_equiv MPropAdded); [exact w_base_wf|exact w_prop_new_diff].
 Qed.
